@@ -85,6 +85,9 @@ type c08Scenario struct {
 	// while the held handler blocks, the application registers a handler on the shared mux
 	// (as every sm.Client.Dial does) and only then do the other connections' messages arrive
 	regWhileHeld bool
+	// the held handler has asked for CloseNotify, and the peer closes (EOF behind the burst that is
+	// already buffered) while it is blocked: the following handlers still wait for it
+	eofWhileHeld bool
 }
 
 // c08Body: body size of message s on connection i (below, at and above the 1 KiB pooled read buffer)
@@ -135,6 +138,9 @@ func runC08(c *ev.Case, ctx *lib.Ctx, sc c08Scenario) {
 			time.Sleep(time.Duration(1+seq%3) * time.Millisecond)
 		case 2:
 			if i == sc.holdConn && seq == sc.holdSeq {
+				if sc.eofWhileHeld {
+					_ = dc.(diam.CloseNotifier).CloseNotify()
+				}
 				held <- struct{}{}
 				<-release
 			}
@@ -270,6 +276,10 @@ func runC08(c *ev.Case, ctx *lib.Ctx, sc c08Scenario) {
 		}
 	}
 	synctest.Wait()
+	if sc.eofWhileHeld {
+		conns[sc.holdConn].FeedEOF()
+		synctest.Wait()
+	}
 	sig := func(op string) ev.Sig {
 		return ev.Sig{"op": op, "dialled": sc.dialled, "pattern": sc.pattern, "handler": sc.handler}
 	}
@@ -687,7 +697,11 @@ func TestC08(t *testing.T) {
 		if sc.mux && sc.handler == 2 && sc.K > 1 && r.IntN(2) == 0 {
 			sc.regWhileHeld = true
 		}
+		if sc.handler == 2 && sc.pattern == 0 && !sc.regWhileHeld && r.IntN(2) == 0 {
+			sc.eofWhileHeld = true
+		}
 		if r.IntN(6) == 0 {
+			sc.eofWhileHeld = false
 			sc.regWhileHeld = false
 			sc.sctp, sc.dialled, sc.prelude = true, true, 0
 			if sc.pattern == 1 {
@@ -705,6 +719,9 @@ func TestC08(t *testing.T) {
 		c.Class("K=%d/dialled=%v/pattern=%d/handler=%d/mux=%v/long=%v/prelude=%d/sctp=%v", sc.K, sc.dialled, sc.pattern, sc.handler, sc.mux, long, sc.prelude, sc.sctp)
 		if sc.regWhileHeld {
 			c.Class("registration-while-a-handler-is-blocked/dialled=%v", sc.dialled)
+		}
+		if sc.eofWhileHeld {
+			c.Class("peer-closes-while-a-handler-that-asked-for-closenotify-is-blocked/dialled=%v", sc.dialled)
 		}
 		leak := runBubbleWD(t, rec, c, 60*time.Second, func() { runC08(c, ctx, sc) })
 		if leak != "" && !c.Failed() {
